@@ -27,9 +27,9 @@ written keys are distinct, so the count is exact there); classdef format 1 is ch
 no checked operation and are modelled in closed form (`List.range' start (end+1-start)`,
 `end+1-start` iterations; none when `end < start`).
 
-`classdef.Read` format 2 keeps the known finding #36: `prevEnd = endGlyphID` is assigned even
-when `endGlyphID < startGlyphID`; `classdefReadFixed` is the same model with the proposed repair
-(such a range is rejected).
+`classdef.Read` is modelled as repaired for finding #36 (classdef.go:126-131: a format-2 range
+with `endGlyphID < startGlyphID` is rejected); `classdefReadOld` is the code before the repair,
+where `prevEnd = endGlyphID` was assigned even for such a range — kept only to state the finding.
 Core-only: linked into the driver.
 -/
 import SfntV.Model.TotalBase
@@ -130,8 +130,9 @@ def cdLoop1 (b : Bytes) (start : Nat) :
     cdLoop1 b start n (q + 2) (i + 1)
       (if cv ≠ 0 then ((start + i) % 65536, cv) :: acc else acc) c.tick
 
-/-- classdef.go:111-133, format 2: `n` ranges left, `q` position, `i` loop index, `prevEnd`.
-`fixed = true` adds the proposed repair `if endGlyphID < startGlyphID { return invalid }`. -/
+/-- classdef.go:111-139, format 2: `n` ranges left, `q` position, `i` loop index, `prevEnd`.
+`fixed = true` is the code as it is now (classdef.go:126-131
+`if endGlyphID < startGlyphID { return invalid }`), `fixed = false` the code before that repair. -/
 def cdLoop2 (fixed : Bool) (b : Bytes) :
     Nat → Nat → Nat → Nat → List (Nat × Nat) → Cost → Outcome (List (Nat × Nat) × Cost)
   | 0, _, _, _, acc, c => .ok (acc, c)
@@ -142,8 +143,8 @@ def cdLoop2 (fixed : Bool) (b : Bytes) :
     let cv ← w16 "classdef.go:118#data[4],data[5]" data 4
     if i > 0 ∧ s ≤ prevEnd then .err "invalid" else
     if fixed = true ∧ e < s then .err "invalid" else
-    -- classdef.go:126 `prevEnd = endGlyphID`;
-    -- classdef.go:128-132 `if cv != 0 { for j := int(s); j <= int(e); j++ { res[j] = cv } }`
+    -- classdef.go:132 `prevEnd = endGlyphID`;
+    -- classdef.go:134-138 `if cv != 0 { for j := int(s); j <= int(e); j++ { res[j] = cv } }`
     let k := if cv ≠ 0 then e + 1 - s else 0
     cdLoop2 fixed b n (q + 6) (i + 1) e ((List.range' s k).map (fun g => (g, cv)) ++ acc)
       ((c.tick (1 + k)).mem k)
@@ -164,12 +165,12 @@ def classdefReadG (fixed : Bool) (b : Bytes) (pos : Nat) : Outcome (List (Nat ×
     cdLoop2 fixed b n (pos + 4) 0 0 [] (c.tick.mem 1)   -- classdef.go:109 `res := Table{}`
   else .err "unsupported"
 
-/-- `classdef.Read(p, pos)` as it is in the working tree -/
+/-- `classdef.Read(p, pos)` as it is in the working tree (finding #36 repaired) -/
 def classdefRead (b : Bytes) (pos : Nat) : Outcome (List (Nat × Nat) × Cost) :=
-  classdefReadG false b pos
-
-/-- `classdef.Read` with the proposed two-line repair of finding #36 -/
-def classdefReadFixed (b : Bytes) (pos : Nat) : Outcome (List (Nat × Nat) × Cost) :=
   classdefReadG true b pos
+
+/-- `classdef.Read` before the repair of finding #36 (kept only to state the finding) -/
+def classdefReadOld (b : Bytes) (pos : Nat) : Outcome (List (Nat × Nat) × Cost) :=
+  classdefReadG false b pos
 
 end SfntV.Total.Otl
